@@ -17,8 +17,10 @@ Search (property predicate on the REAL code, independent of the model):
       (ii) real elastic solves through spring.TubeSpring / PythonTubeSolver.solve: stresses vs the
            Lean-evaluated closed form under refinement (ring means: observed order >= 1.8; pointwise:
            first-order mesh bound), 1D = 2D = 3D ring-mean stresses, force per area and
-           stiffness*h/(E*A); a non-uniform radial temperature profile is compared across the
-           abstractions only.
+           stiffness*h/(E*A); a non-uniform (quadratic) radial temperature profile is compared across
+           the abstractions AND, with pressure and axial extension superposed, against the
+           thermo-elastic closed form of SrModel/LameThermal.lean (theorems thermal_* of SrProps/C03.lean,
+           proved for an arbitrary profile T(r) with moment I(r)) under refinement (observed order 2).
 """
 import math
 import os
@@ -513,6 +515,79 @@ class RefineJob:
         return bad, info
 
 
+def profile_coeffs(g, a, b):
+    """T(r) = a s + b s^2 with s = (r - ri)/t written as c0 + c1 r + c2 r^2"""
+    ri, t = g["r"] - g["t"], g["t"]
+    return -a * ri / t + b * ri * ri / t ** 2, a / t - 2 * b * ri / t ** 2, b / t ** 2
+
+
+def lamet_line(g, cs, r):
+    ri, ro = g["r"] - g["t"], g["r"]
+    return "lamet stress " + " ".join(str(F2B(v)) for v in (
+        ri, ro, g["p"], g["E"], g["nu"], g["al"], g["d"] / g["h"], cs[0], cs[1], cs[2], r))
+
+
+def lamet_force_line(g, cs):
+    ri, ro = g["r"] - g["t"], g["r"]
+    return "lamet force " + " ".join(str(F2B(v)) for v in (
+        ri, ro, g["p"], g["E"], g["nu"], g["al"], g["d"] / g["h"], cs[0], cs[1], cs[2], math.pi))
+
+
+class ThermalRefineJob:
+    """refinement against the thermo-elastic closed form of SrModel.LameThermal (pressure + axial extension + a
+    quadratic radial temperature profile T = a s + b s^2): ndim 1: nr 6 -> 12; ndim 2: (6,24) -> (12,48)"""
+
+    def __init__(self, ndim, g0, ab, batch):
+        self.ndim, self.g0, self.ab = ndim, dict(g0), ab
+        self.g0["dT"] = 0.0
+        self.cs = profile_coeffs(self.g0, *ab)
+        self.levels = []
+        for s in (dict(nr=6, nt=24), dict(nr=12, nt=48)):
+            g = dict(self.g0)
+            g.update(s)
+            g["nz"] = 2
+            rs = np.linspace(0.0, 1.0, g["nr"])
+            res = solve_case(ndim, g, ab[0] * rs + ab[1] * rs * rs)
+            rn = np.linspace(g["r"] - g["t"], g["r"], g["nr"])
+            mids = [batch.add(lamet_line(g, self.cs, float(r))) for r in 0.5 * (rn[1:] + rn[:-1])]
+            self.levels.append((g, res, mids))
+        self.fidx = batch.add(lamet_force_line(self.g0, self.cs))
+
+    def evaluate(self, batch):
+        bad, info = [], {}
+        g0 = self.g0
+        ri = g0["r"] - g0["t"]
+        scT = g0["al"] * g0["E"] / (1.0 - g0["nu"]) * (abs(self.ab[0]) + abs(self.ab[1]))
+        sc = max(pscale(g0), scT)
+        F = batch.floats(self.fidx)[0]
+        A = math.pi * (g0["r"] ** 2 - ri ** 2)
+        errs, ferr = [], []
+        for g, res, mids in self.levels:
+            L = np.array([batch.floats(i)[:3] for i in mids])
+            e = max(float(np.max(np.abs(res["ring_srr"] - L[:, 0]))), float(np.max(np.abs(res["ring_stt"] - L[:, 1]))),
+                    float(np.max(np.abs(res["ring_szz"] - L[:, 2]))))
+            errs.append(e)
+            ferr.append(abs(res["f"] / res["area"] - F / A))
+            dr = g["t"] / (g["nr"] - 1)
+            bound = 0.5 * (dr / ri + (math.pi / g["nt"] if self.ndim > 1 else 0.0)) * sc
+            if not e <= bound:
+                bad.append("%dD nr=%d nt=%d, T(r) = %g s + %g s^2: ring-mean stress error %.4g vs thermo-elastic closed form "
+                           "exceeds the mesh bound %.4g" % (self.ndim, g["nr"], g["nt"], self.ab[0], self.ab[1], e, bound))
+        floor = 1e-9 * max(sc, abs(F / A))
+        ratio = errs[0] / max(errs[1], floor)
+        info.update(err_coarse=errs[0], err_fine=errs[1], ratio=ratio, force_err=ferr, scale=sc, profile=list(self.ab))
+        if errs[0] > floor and ratio < 2 ** 1.5:
+            bad.append("%dD, T(r) = %g s + %g s^2: ring-mean stress error vs thermo-elastic closed form %.4g -> %.4g under "
+                       "refinement, ratio %.2f < 2^1.5" % (self.ndim, self.ab[0], self.ab[1], errs[0], errs[1], ratio))
+        fs_ = max(abs(F / A), sc)
+        if ferr[0] > 2e-2 * fs_ or ferr[1] > 1e-2 * fs_:
+            bad.append("%dD, T(r): force/area %.8g (coarse) vs closed form %.8g" % (
+                self.ndim, self.levels[0][1]["f"] / self.levels[0][1]["area"], F / A))
+        if ferr[0] > 1e-7 * fs_ and ferr[0] / max(ferr[1], 1e-12 * fs_) < 2 ** 1.5:
+            bad.append("%dD, T(r): force/area error vs closed form %.4g -> %.4g, ratio < 2^1.5" % (self.ndim, ferr[0], ferr[1]))
+        return bad, info
+
+
 class CrossJob:
     """1D vs 2D vs 3D on the same (nr, nt); uniform dT also against the closed form"""
 
@@ -740,15 +815,17 @@ def run(ctx):
                 "non-trivial; the seam element and the coarse nt = 4..8 where the facet-midpoint rule fails are "
                 "always present); load suite: the assembled external force of the same 84 meshes; "
                 "solve suite: random (r,t,h,E,nu,alpha,p,dT,d) cases, refinement pairs in 1-D/2-D and "
-                "1D/2D/3D on (nr,nt,nz)=(4,12,3), uniform dT and a radial T(r); distinct = (suite, dim, sizes, case no.)")
+                "1D/2D/3D on (nr,nt,nz)=(4,12,3), uniform dT and a radial T(r); refinement pairs with pressure + extension + a "
+                "quadratic radial T(r) against the thermo-elastic closed form of SrModel.LameThermal; "
+                "distinct = (suite, dim, sizes, case no.)")
     ctx.trusted = ["Lean 4 kernel + Mathlib (propext, Classical.choice, Quot.sound)",
                    "harness/c03.py (recovery of grid indices from coordinates, polar transformation of the stresses)",
                    "scikit-fem assembly of the quad/hex element integrals and NEML elasticity are exercised, not modelled",
-                   "Float evaluation of SrModel.Lame vs its real-number theorems (IEEE rounding)"]
+                   "Float evaluation of SrModel.Lame / SrModel.LameThermal vs their real-number theorems (IEEE rounding)"]
     ctx.assumptions = ["nr >= 2, nt >= 3, nz >= 2 (pressure_facets_spec fails for nt = 2, shown by an example)",
                        "linear elastic material with constant E, nu, alpha; small strain"]
     thm_ok = common.lean_stage(ctx, [("SrProps.C03", "SrProps/C03.lean", "SrProps.C03")])
-    drv = common.LeanDriver(["SrModel.Mesh", "SrModel.Lame"])
+    drv = common.LeanDriver(["SrModel.Mesh", "SrModel.Lame", "SrModel.LameThermal"])
     rng = ctx.rng
     batch = Batch()
 
@@ -785,6 +862,12 @@ def run(ctx):
         gt = dict(gc)
         gt["T1"] = [float(v) for v in T1]
         jobs.append(("cross-T(r)", 0, c, gt, CrossJob, (gc, T1, batch)))
+        # the same family against the thermo-elastic closed form (all abstractions could be wrong together)
+        ab = (float(a), float(b))
+        for ndim in ((1, 2) if (not ctx.quick() or c == 0) else (1 + c % 2,)):
+            gr = dict(g)
+            gr["ab"] = list(ab)
+            jobs.append(("refine-T(r)", ndim, c, gr, ThermalRefineJob, (ndim, g, ab, batch)))
     # a step in which the free dofs are already in equilibrium at the starting guess: Poisson's ratio 0 (a
     # legal boundary value), no pressure, no temperature change, pure axial extension -- the reported force
     # and stiffness must still be those of the step (1D/2D and the single-layer 3-D mesh included)
@@ -925,12 +1008,15 @@ def replay(obj):
         print("property holds on this input" if not (bad or lb) else "property violated on this input")
         return 1 if (bad or lb) else 0
     if chk == "solve":
-        drv = common.LeanDriver(["SrModel.Mesh", "SrModel.Lame"])
+        drv = common.LeanDriver(["SrModel.Mesh", "SrModel.Lame", "SrModel.LameThermal"])
         batch = Batch()
         g = dict(r["case"])
         T1 = g.pop("T1", None)
         if r["kind"] == "refine":
             job = RefineJob(r["ndim"], g, batch)
+        elif r["kind"] == "refine-T(r)":
+            ab = tuple(g.pop("ab"))
+            job = ThermalRefineJob(r["ndim"], g, ab, batch)
         else:
             job = CrossJob(g, None if T1 is None else np.array(T1), batch)
         batch.run(drv)
